@@ -58,6 +58,9 @@ ENV["SLT_HARNESS_DIR"] = HARNESS
 ENV.setdefault("SLT_SCRATCH", os.path.join(OUT, "scratch"))
 
 
+TRACE_LIB = os.environ.get("SLT_TRACE_LIB", "1") == "1"
+
+
 class MachineryError(Exception):
     pass
 
@@ -362,6 +365,12 @@ def correspond(pid, spec, tier, seed):
                 continue
             if p.returncode != 0:
                 raise MachineryError(f"harness gen {prof} failed: {p.stdout[-3000:]}")
+            if prof == "c17lib" and TRACE_LIB:
+                # the library's parallel runner: its canonicalised event logs are also replayed in the
+                # driver transition system (witness search in cli_harness.py, checked by the Lean model)
+                p = sh(["python3", os.path.join(ROOT, "tools", "cli_harness.py"), "libtrace", outdir], check=False, timeout=3600)
+                if p.returncode != 0:
+                    raise MachineryError(f"libtrace on {prof} failed: {p.stdout[-3000:]}")
         cases, model = run_model(os.path.join(outdir, "cases.txt"), os.path.join(outdir, "model.txt"))
         impl = open(os.path.join(outdir, "impl.txt")).read().split("\n")
         if impl and impl[-1] == "":
